@@ -559,8 +559,16 @@ get_trait_flag(trait_object *trait, unsigned int mask)
 static int
 set_trait_flag(trait_object *trait, unsigned int mask, PyObject *value)
 {
-    int flag = PyObject_IsTrue(value);
+    int flag;
 
+    /* 'del ctrait.<flag>' calls the setter with NULL. */
+    if (value == NULL) {
+        PyErr_SetString(
+            PyExc_AttributeError, "cannot delete a trait flag attribute");
+        return -1;
+    }
+
+    flag = PyObject_IsTrue(value);
     if (flag == -1) {
         return -1;
     }
